@@ -71,6 +71,7 @@ def discharge(ob, z3_timeout_ms=10000, cvc5_timeout_s=30, cross_check=False):
     s = mk(False)
     r = s.check()
     if r == z3.unknown:
+        z3_timeout_ms = max(2000, z3_timeout_ms // 2)
         s = mk(True)   # model-based quantifier instantiation: can find counter-models under quantifiers
         r = s.check()
     ob.time = time.time() - t0
